@@ -48,6 +48,13 @@ claim("C04", "path-sensitive SSA fact walk (same-token rule) + composite-literal
       "Structural necessary condition for all tokens/configurations: a session is built from claims only on paths where that same token passed Verify; Verify succeeds only with go-oidc ok and the own audience-membership check; no oidc.Config disables expiry/signature and issuer skipping comes only from the explicit option; email_verified gate on every success return; bearer loader list closed; OIDC-embedding overrides delegate. Level 'other'.",
       TRUST + " Not decided: claim-value equality, go-oidc internals; legacy Azure extractClaimsIntoSession is an unclaimed site.", "DESIGN.md §5 C04")
 
+claim("C14", "path-sensitive SSA fact walk + provider call-site error discipline + panic-source enumeration (SSA + compiler BCE residue) on provider code",
+      "Structural necessary condition of fail-closed IdP handling for every fault position: no save/extension on any IdP-error path (callback facts, redeemCode, stale-result rule, createSession failure clause), no Provider result dropped at any enumerated call site, and every nameable panic source on decoded IdP data in request-reachable provider code guarded or reviewed. Level 'other'.",
+      TRUST + " Not decided: time-outs, oversized bodies, third-party decoder internals.", "DESIGN.md §5 C14")
+claim("C19", "panic-source enumeration over the VTA request-reachable set: SSA instructions + compiler prove-pass residue + nullable-field path facts",
+      "Structural necessary condition: every nameable panic source reachable from ServeHTTP (explicit panic, unchecked assertion, compiler-unproven index/slice, dynamic Must*, nullable timestamp / decoder-filled pointer dereference) is discharged by a guard found on every path or by a reviewed one-construct-one-reason table; scope presence; SameSite agreement. Level 'other': absence of the enumerated panic classes, not of all crashes.",
+      TRUST + " Also trusted: the Go compiler's prove pass for eliminated bounds checks. Not decided: third-party library panics, nil-map writes, division, exhaustion.", "DESIGN.md §5 C19")
+
 for i in range(2, 21):
     pid = "C%02d" % i
     if pid not in T:
